@@ -3,6 +3,8 @@
 mod util;
 mod c16;
 mod c10;
+mod env;
+mod c01;
 
 use util::Ctx;
 
@@ -30,6 +32,7 @@ fn main() {
     match (args[1].as_str(), args[2].as_str()) {
         ("gen", "C16") => c16::gen(&mut ctx),
         ("gen", "C10") => c10::gen(&mut ctx),
+        ("gen", "C01") => c01::gen(&mut ctx),
         _ => { eprintln!("unknown command"); std::process::exit(2); }
     }
     ctx.finish(stats.as_deref());
